@@ -12,7 +12,7 @@ from hypothesis import strategies as st
 from pbt import jsongen as jg
 
 PLACEHOLDER = 987650123456789      # replaced by a huge integer literal at render time
-MEMBER_ALPHA: List[Any] = [None, True, False, 0, 1, -1, 1.0, 1.5, '', '2.0', 'x', [], [1], {}, {'a': 1}, '1.0', '2', 2.0, 2]
+MEMBER_ALPHA: List[Any] = [None, True, False, 0, 1, -1, 1.0, 1.5, '', '2.0', 'x', [], [1], {}, {'a': 1}, '1.0', '2', 2.0, 2, '2.', '.0', '0', '.', '2.00', ' 2.0']
 
 
 def render(ts: Dict[str, Any]) -> str:
